@@ -33,7 +33,7 @@ ASSUMPTIONS = ["delegate executor is the harness ManualExecutor; retry sleep 0.2
 
 D = 0.3
 SINGLE = ["map", "flat_map", "retry", "poll", "throttle", "timeout", "cos"]
-MODES = ["value", "exc", "inner_cancel", "outer_cancel", "exc_then_inner_cancel"]
+MODES = ["value", "exc", "inner_cancel", "outer_cancel", "exc_then_inner_cancel", "refused_cancel_then_inner_cancel"]
 
 
 def layer_specs(layers):
@@ -75,6 +75,11 @@ def cases(tier, seed):
                         "trigger": trig, "cap": 16 if tier == "quick" else 80})
         out.append({"name": "loop.timer/%s" % ">".join(layers), "kind": "timer", "layers": layers,
                     "cap": 14 if tier == "quick" else 60})
+    for layers in ([["retry"], ["poll"], ["throttle"], ["timeout"], ["map"], ["retry", "map"], ["map", "retry"], ["throttle", "retry"]]
+                   + ([list(p) for p in itertools.product(SINGLE, SINGLE)] if tier == "thorough" else [])):
+        for a, b in (("complete", "complete"), ("complete", "fail"), ("fail", "complete"), ("fail", "fail"), ("complete", "inner_cancel")):
+            out.append({"name": "done.pair/%s/%s|%s" % (">".join(layers), a, b), "kind": "donepair", "layers": layers, "a": a, "b": b,
+                        "cap": 30 if tier == "quick" else None})
     for order in (["long", "short"], ["short", "long"], ["long", "short", "mid"], ["mid", "long", "short", "short"]):
         for form in ("executor", "f_timeout"):
             out.append({"name": "ext.timeout/%s/%s" % (form, "-".join(order)), "kind": "tmo", "order": order, "form": form})
@@ -209,7 +214,17 @@ def run_ext(case, res):
             ctx = Ctx()
             try:
                 w = World(ctx, layers, n=2)
-                modes = {"exc_then_inner_cancel": ["exc", "inner_cancel"]}.get(mode, [mode])
+                modes = {"exc_then_inner_cancel": ["exc", "inner_cancel"],
+                         "refused_cancel_then_inner_cancel": ["inner_cancel"]}.get(mode, [mode])
+                if mode == "refused_cancel_then_inner_cancel":
+                    # the delegate refuses the first cancel request (like a future whose cancel is vetoed once);
+                    # cancel() through the derived future is refused, later somebody else cancels the delegate
+                    instr.advance(D)
+                    for k in w.items_of(0):
+                        w.me.fut(k).refuse_cancels = 1
+                    r = call("cancel", w.futs[0].cancel, _tag=0)
+                    w.cancel_ret[0] = r
+                    instr.advance(D)
                 if running:
                     instr.advance(D)
                     for k in w.items_of(0):
@@ -324,6 +339,46 @@ class TimerScenario(WakeScenario):
         ctx.w.judge(res, "timer/%s/%s" % (">".join(self.layers), self.prod), "value", info)
 
 
+class DonePairScenario(object):
+    """Two delegate futures of different submissions finish on two threads: the completion of the
+    later submission is suspended at each statement boundary while the earlier one completes."""
+
+    def __init__(self, case):
+        self.case = case
+
+    def setup(self):
+        ctx = Ctx()
+        w = World(ctx, self.case["layers"], n=3)
+        ctx.w = w
+        instr.advance(D)
+        # with a throttle of 1 only one item is at the delegate; lift it by finishing nothing - use what is there
+        ctx.items = w.pending_items()
+        return ctx
+
+    def victim_role(self, ctx):
+        return "V"
+
+    def _act(self, ctx, which, how):
+        w = ctx.w
+        p = [k for k in ctx.items if not w.me.fut(k).done()]
+        if not p:
+            return
+        k = p[-1] if which == "later" else p[0]
+        w.act(k, {"complete": "value", "fail": "exc", "inner_cancel": "inner_cancel"}[how])
+
+    def start_victim(self, ctx):
+        return ctx.actor("V", self._act, ctx, "later", self.case["a"]).go()
+
+    def intervene(self, ctx):
+        self._act(ctx, "earlier", self.case["b"])
+
+    def finish(self, ctx):
+        ctx.w.run_to_end([])
+
+    def oracle(self, ctx, res, info):
+        ctx.w.judge(res, "donepair/%s/%s|%s" % (">".join(self.case["layers"]), self.case["a"], self.case["b"]), "value", info)
+
+
 def run_wake(case, res):
     rng = random.Random("c03/%s/%s" % (case["seed"], case["name"]))
     seconds = ["submit", "complete", "fail", "cancel", "inner_cancel"]
@@ -372,8 +427,47 @@ def make_comb(comb, ins):
     raise ValueError(comb)
 
 
+def run_comb_refused(case, res):
+    """cancel() of the derived future is refused (input shielded by f_nocancel / refusing once), then the
+    input is cancelled by someone else: the derived future must still end."""
+    F = instr.ME.futures
+    comb = case["comb"]
+    if comb in ("nocancel",):
+        return
+    for shield in ("nocancel", "refuse_once"):
+        begin("vt")
+        ctx = Ctx()
+        try:
+            spies = [SpyFuture("in%d" % i) for i in range(3)]
+            if shield == "nocancel":
+                ins = [F.f_nocancel(s) for s in spies]
+            else:
+                ins = spies
+                for s in spies:
+                    s.refuse_cancels = 1
+            try:
+                out = make_comb(comb, ins)
+            except Exception:
+                continue
+            r = out.cancel()
+            instr.advance(D)
+            for s in spies:
+                s.cancel()
+            instr.advance(D)
+            res.execs += 1
+            check_common(res)
+            if not out.done() and all(s.done() for s in spies) and r is not True:
+                res.violation("lost/external-cancel-after-refused-cancel/%s" % type(out).__name__,
+                              "f_%s: cancel() of the output was refused (%s), then every input was cancelled by someone else: output (%s) still pending"
+                              % (comb, shield, type(out).__name__))
+            res.key("comb-refused", comb, shield)
+        finally:
+            end(ctx)
+
+
 def run_comb(case, res):
     comb = case["comb"]
+    run_comb_refused(case, res)
     arity = {"map": 1, "nocancel": 1, "proxy": 1, "timeout": 1, "flat_map": 2}.get(comb, case["n"])
     ends = ["value", "exc", "cancel"]
     for assign in itertools.product(ends, repeat=arity):
@@ -459,6 +553,9 @@ def run_case(case, res):
     k = case["kind"]
     if k == "tmo":
         return run_tmo(case, res)
+    if k == "donepair":
+        rng = random.Random("c03/%s/%s" % (case["seed"], case["name"]))
+        return Sweep(DonePairScenario(case), res, "vt", case["name"]).run(case["cap"], rng, per_site=3)
     if k == "ext":
         run_ext(case, res)
     elif k == "wake":
